@@ -501,6 +501,22 @@ def frag_lists(chk, can_eval=True):
             k2, msg2 = run_sdk(small)[1]
             chk.fail(signature(small, k2, msg2), msg2,
                      {"kind": "list", "case": [small[0], small[1], list(small[2]), small[3], small[4], [list(o) for o in small[5]]]})
+    # SpecificAssetId is a frozen HasSemantics object: constructor only
+    from basyx.aas import model
+    from c02 import call
+    P = pool("Qualifier")
+    for g in (None, P[0]):
+        for n in (0, 1, 2):
+            for fl in range(4):
+                e = call(lambda: model.SpecificAssetId("n", "v", semantic_id=g, supplemental_semantic_id=as_arg(P[1:1 + n], fl)))
+                bad_args = g is None and n > 0
+                chk.seen(("sid-ctor", g is None, n, fl), nontrivial=True)
+                if (e is None) == bad_args or (e is not None and not (isinstance(e, model.AASConstraintViolation)
+                                                                       and e.constraint_id == 118)):
+                    chk.fail("C02:SpecificAssetId:ctor" + (":iterator" if fl in (1, 2) else ":list"),
+                             f"SpecificAssetId(semantic_id={'None' if g is None else 'ref'}, {n} supplemental ids): "
+                             + ("accepted" if e is None else f"raised {type(e).__name__}: {e}"),
+                             {"kind": "sid-ctor", "sem_none": g is None, "n": n, "flavour": fl})
     if not can_eval:
         return
     bad, errs = common.run_mismatch_shards("C02ls", PRELUDE, terms, "check_list_case", shard=600)
